@@ -206,6 +206,32 @@ func (Fam) Gen(r *rand.Rand, i int) string {
 		}
 		a, b = cl(a, ba), cl(b, bb)
 	}
+	if strings.HasPrefix(k, "dec.") && !strings.Contains(k, "int") && r.Intn(12) == 0 {
+		// a whole-valued decimal whose integer part lies beyond the Int range (2^255 .. 2^315/10^18): still a valid Dec;
+		// the other operand small, so that the exact result is representable
+		m := new(big.Int).Lsh(one, 255)
+		top := new(big.Int).Quo(new(big.Int).Sub(lim315, one), P)
+		span := new(big.Int).Sub(top, m)
+		switch r.Intn(4) {
+		case 0:
+		case 1:
+			m.Add(m, big.NewInt(int64(r.Intn(3))))
+		case 2:
+			m.Set(top)
+		default:
+			m.Add(m, new(big.Int).Rand(r, span))
+		}
+		big1 := new(big.Int).Mul(m, P)
+		if r.Intn(2) == 0 {
+			big1.Neg(big1)
+		}
+		small := []*big.Int{big.NewInt(0), new(big.Int).Set(P), new(big.Int).Neg(P), new(big.Int).Quo(P, two), big.NewInt(1), new(big.Int).Mul(P, big.NewInt(2))}[r.Intn(6)]
+		if r.Intn(2) == 0 {
+			a, b = small, big1
+		} else {
+			a, b = big1, small
+		}
+	}
 	if strings.HasPrefix(k, "uint.") {
 		a.Abs(a)
 		b.Abs(b)
